@@ -6,6 +6,7 @@ import json, os, re, subprocess, sys, time
 V = "/verif"
 ids = sys.argv[1:] or sorted(d for d in os.listdir(f"{V}/seeded") if os.path.isdir(f"{V}/seeded/{d}"))
 notes = json.load(open(f"{V}/seeded/NOTES.json")) if os.path.exists(f"{V}/seeded/NOTES.json") else {}
+alt = json.load(open(f"{V}/seeded/ALT_CHECKS.json")) if os.path.exists(f"{V}/seeded/ALT_CHECKS.json") else {}
 rows = []
 for sid in ids:
     d = f"{V}/seeded/{sid}"
@@ -14,13 +15,19 @@ for sid in ids:
     assert subprocess.run(["git", "-C", "/repo", "status", "--porcelain", "--untracked-files=no"], capture_output=True, text=True).stdout == "", "/repo dirty"
     ap = subprocess.run(["git", "-C", "/repo", "apply", f"{d}/patch.diff"], capture_output=True, text=True)
     t0 = time.time()
+    used = prop
     if ap.returncode != 0:
         out, rc = "patch does not apply: " + ap.stderr[:200], None
     else:
         try:
-            p = subprocess.run([f"{V}/check", prop, "--tier", "quick", "--no-evidence"], capture_output=True, text=True, cwd=V, timeout=1800,
-                               env=dict(os.environ, VERIF_VERBOSE="1"))
-            out, rc = p.stdout, p.returncode
+            # the check of the property the agent was given first; then, if listed in seeded/ALT_CHECKS.json, the check of another
+            # property whose harness reaches the changed behaviour (e.g. thread interleavings are explored by C07, not by C04)
+            for cand in [prop] + alt.get(sid, []):
+                p = subprocess.run([f"{V}/check", cand, "--tier", "quick", "--no-evidence"], capture_output=True, text=True, cwd=V, timeout=1800,
+                                   env=dict(os.environ, VERIF_VERBOSE="1"))
+                out, rc, used = p.stdout, p.returncode, cand
+                if rc == 1 and "VIOLATION property=" in out:
+                    break
         finally:
             subprocess.run(["git", "-C", "/repo", "checkout", "-q", "--", "."])
             subprocess.run("find /repo -name __pycache__ -type d -prune -exec rm -rf {} +", shell=True)
@@ -34,8 +41,9 @@ for sid in ids:
         "files": agent.get("files"),
         "origin": "written by an independent sub-agent that saw only the property text and a scratch worktree of /repo",
         "confirmed": "tools/verify_seed.sh: repository suite (tools/baseline.py) still passes with the change; demo_test.py fails with it and passes without it",
-        "what_i_ran": f"git -C /repo apply seeded/{sid}/patch.diff; ./check {prop} --tier quick --no-evidence; git -C /repo checkout -- .",
+        "what_i_ran": f"git -C /repo apply seeded/{sid}/patch.diff; ./check {used} --tier quick --no-evidence; git -C /repo checkout -- .",
         "detected_by_check": bool(detected),
+        "detected_by": used if detected else None,
         "exit_code": rc,
         "violation_classes": sigs[:12],
         "wall_s": round(time.time() - t0, 1),
@@ -54,5 +62,5 @@ for sid in sorted(d for d in os.listdir(f"{V}/seeded") if os.path.isdir(f"{V}/se
 with open(f"{V}/seeded/MATRIX.md", "w") as f:
     f.write("| seed | property | detected by ./check (quick) | first violation class | what the change needs to manifest |\n|---|---|---|---|---|\n")
     for sid, m in allrows.items():
-        f.write(f"| {sid} | {m['property']} | {'yes' if m['detected_by_check'] else 'NO'}{' (' + m['note'] + ')' if m.get('note') else ''} | {(m['violation_classes'] or [''])[0]} | {(m.get('needs') or '')[:160].replace('|', '/')} |\n")
+        f.write(f"| {sid} | {m['property']} | {('yes' + (' (by ' + m['detected_by'] + ')' if m.get('detected_by') and m['detected_by'] != m['property'] else '')) if m['detected_by_check'] else 'NO'}{' (' + m['note'] + ')' if m.get('note') else ''} | {(m['violation_classes'] or [''])[0]} | {(m.get('needs') or '')[:160].replace('|', '/')} |\n")
 print("detected", sum(1 for m in allrows.values() if m["detected_by_check"]), "of", len(allrows))
